@@ -3,7 +3,7 @@ import TTV.Model.StreamConvert
 import TTV.Spec.C09
 import TTV.Drv.StreamCodec
 /-! Driver glue for C09.
-input  = `(explicitStart (test…))`, test = `(id gtags t0 ltags t1 result)`, tags = `none` | `(some ((new…) (gone…)))`
+input  = `(explicitStart (run…))`, run = `(test…)`, test = `(id gtags t0 ltags t1 result)`, tags = `none` | `(some ((new…) (gone…)))`
 result = `(success D?)` | `(uxsuccess D?)` | `(error P)` | `(failure P)` | `(xfail P)` | `(skip S)`;
          D? = `none` | `(some (detail…))`; P = `err` | `(details detail…)`; S = `none` | `(reason (cp…))` | `(details detail…)`
 detail = `(name mime (chunk…))`
@@ -42,7 +42,7 @@ def test? : Sexp → Option TestIn
   | _ => none
 
 def input? : Sexp → Option Convert.Input
-  | .list [a, b] => do some { explicitStart := ← bool? a, tests := ← list? test? b }
+  | .list [a, b] => do some { explicitStart := ← bool? a, runs := ← list? (list? test?) b }
   | _ => none
 
 def streamEv? : Sexp → Option StreamEv
